@@ -21,8 +21,8 @@ ID = "C10"
 LEVEL = "fault_enumeration"
 SEGMENT_TIMEOUT = 180
 TIERS = {
-    "quick": dict(plans=96, budget_s=75, workloads=12, chunks=8, det_plans=2),
-    "thorough": dict(plans=6000, budget_s=1200, workloads=300, chunks=20, det_plans=8, always_selftest=True),
+    "quick": dict(plans=192, budget_s=75, workloads=12, chunks=8, det_plans=2),
+    "thorough": dict(plans=12000, budget_s=1200, workloads=300, chunks=20, det_plans=8, always_selftest=True),
 }
 FAULT_KINDS = ["infeasible", "abnormal", "not_solved", "incumbent", "verify"]
 MAX_K = 40
@@ -112,11 +112,28 @@ def _novel_near_tie(rng):
             "adversary": None}
 
 
+SCRIPT_MODES = ["exact_tie", "near_gap", "near_gap", "large", "large", "spread", "zero_best"]
+
+
 def gen_plan(rng, tier, i, seed):
     cfg = TIERS[tier]
+    scripted, i = i % 2 == 1, i // 2
     wi = i % cfg["workloads"]
     chunk = (i // cfg["workloads"]) % cfg["chunks"]
     w = gen_workload(seed, wi)
+    if scripted:
+        # scripted stages: the three model solvers are played by the simulator (well-formed candidates
+        # with plan-chosen scores), the real genotype() / estimate_*() code selects among them
+        w = copy.deepcopy(w)
+        w["adversary"] = None
+        w["params"] = {"gap": rng.choice([0, 0.1, 0.1, 0.3, 0.3, 0.5, 1.0]),
+                       "max_minor_solutions": rng.choice([1, 2, 3])}
+        w["out"] = rng.choice(["aldy", "vcf", "simple", "none"])
+        w["hashseed"] = rng.choice([0, 1, 2, 3])
+        w["script"] = {"seed": rng.randint(0, 10**9), "mode": rng.choice(SCRIPT_MODES),
+                       "n_cn": rng.choice([0, 1, 1, 2, 2, 2, 3, 3]), "empty_major": rng.random() < 0.12,
+                       "empty_minor": rng.random() < 0.12}
+        return {"w": w, "faults": []}
     pts = [(k, kind) for k in range(MAX_K) for kind in FAULT_KINDS]
     mine = [list(p) for n, p in enumerate(pts) if n % cfg["chunks"] == chunk]
     return {"w": w, "faults": mine}
@@ -136,7 +153,7 @@ def _materialise(runner, w):
 def _seg(w, worlddir, man, rundir, sim, tag):
     return {"kind": "run", "hashseed": w["hashseed"], "worlddir": worlddir, "man": man, "rundir": rundir,
             "params": w["params"], "out": w["out"], "build": w["build"], "sim": sim, "tag": tag,
-            "gene": w["world"]["genes"][0]["name"]}
+            "gene": w["world"]["genes"][0]["name"], "script": w.get("script")}
 
 
 def execute(plan, runner, rundir):
@@ -153,7 +170,8 @@ def execute(plan, runner, rundir):
 
             shutil.rmtree(rd, ignore_errors=True)
 
-    pil = runner.memoised(("pilot", wd, canon.digest([w["params"], w["out"], w["hashseed"], w["adversary"]])), pilot)
+    pil = runner.memoised(("pilot", wd, canon.digest([w["params"], w["out"], w["hashseed"], w["adversary"],
+                                                       w.get("script")])), pilot)
     n = pil["solves"]
     runs = []
     for k, kind in plan["faults"]:
@@ -259,6 +277,10 @@ def update_stats(acc, plan, out):
         acc["selection_checked"] += p["selection_checked"]
         acc["chains_checked"] += p["chains_checked"]
         acc["minor_ge2_structs"] = acc.get("minor_ge2_structs", 0) + p.get("minor_stage_ge2_structures", 0)
+        acc["order_informative"] = acc.get("order_informative", 0) + p.get("order_informative", 0)
+        if r.get("script"):
+            acc.setdefault("scripted", {})
+            acc["scripted"][r["script"]] = acc["scripted"].get(r["script"], 0) + 1
         if r["exc"]:
             acc["errors"] += 1
         for st in p["empty_stages"]:
@@ -304,12 +326,16 @@ def evidence(acc):
                 "selection_rule_recomputations": acc["selection_checked"],
                 "chains_checked": acc["chains_checked"],
                 "minor_stage_calls_with_ge2_structures": acc.get("minor_ge2_structs", 0),
+                "runs_whose_reported_list_has_distinct_scores": acc.get("order_informative", 0),
+                "scripted_stage_runs_by_score_mode": acc.get("scripted", {}),
             },
             "exhaustive_over": "fault kind x solve index (first 40 solves) of every workload's genotype() call, "
                                "spread over the plans of a batch; workloads are sampled",
             "components": {
                 "real": ["aldy.genotype.genotype and everything below it", "CBC (every solve real)", "pysam, indelpost"],
-                "stub": ["solver proxy: status / verification faults at one solve index; optional adversarial vertex",
+                "stub": ["scripted-stage plans (every other plan): solve_cn_model / solve_major_model / solve_minor_model "
+                         "return simulator-made well-formed candidates with plan-chosen scores",
+                         "solver proxy: status / verification faults at one solve index; optional adversarial vertex",
                          "recording wrappers around estimate_cn / estimate_major / estimate_minor"],
             },
         },
@@ -493,6 +519,8 @@ def oracle(res_list, exc, output, out_kind, sample_name, gene_name, viol, probes
             viol.append({"clause": "reported score does not carry over the structure / major score differences",
                          "detail": {"score": s.score, "expected": want_score[k]}})
     sc = [s.score for s in res_list]
+    if len({int(1000 * x) for x in sc}) >= 2:
+        probes["order_informative"] = probes.get("order_informative", 0) + 1
     if any(int(1000 * b) < int(1000 * a) for a, b in zip(sc, sc[1:])):
         viol.append({"clause": "reported solutions are not listed best first", "detail": {"scores": sc}})
     # (ii) chains
@@ -555,6 +583,123 @@ def _check_output(output, kind, sample, gene, res_list, viol):
                          "detail": {"header": hdr[:1], "reported": len(res_list)}})
 
 
+def _install_script(script, gap):
+    """Scripted stages: aldy.cn.solve_cn_model, aldy.major.solve_major_model and aldy.minor.solve_minor_model are
+    played by the simulator.  They return well-formed candidates (structures over the catalogue's configurations,
+    alleles of those configurations, catalogued minors, the real diplotype heuristic) whose scores follow the plan:
+    exact ties, scores around the gap boundary, large scores with small differences, spreads.  Everything above
+    them - estimate_cn / estimate_major / estimate_minor, the carry-over of score differences, gap filters,
+    ordering, error paths and the writers - is aldy's real code."""
+    import aldy.cn
+    import aldy.major
+    import aldy.minor
+    from aldy.diplotype import estimate_diplotype
+    from aldy.solutions import CNSolution, MajorSolution, MinorSolution, SolvedAllele
+
+    seed, mode = script["seed"], script["mode"]
+    r0 = random.Random(f"{seed}:base")
+    base = {"exact_tie": r0.choice([0.0, 1.5, 2.0, 7.25]), "near_gap": r0.choice([0.0, 0.4, 2.0, 3.3]),
+            "large": r0.choice([18.0, 35.0, 60.0]) + r0.random(), "spread": r0.uniform(0, 2),
+            "zero_best": 0.0}[mode]
+    counter = {"cn": 0, "major": 0, "minor": 0}
+
+    def scores(rng, n):
+        out = []
+        for j in range(n):
+            if mode == "exact_tie":
+                d = rng.choice([0.0, 0.0, 0.0, 1e-12, -1e-12])
+            elif mode == "near_gap":
+                d = rng.choice([0.0, 0.0, gap / 2, gap - 0.02, gap + PREC / 2, gap + PREC - 3e-4,
+                                gap + PREC + 3e-4, gap + 0.05])
+            elif mode == "large":
+                d = rng.choice([0.0, 0.02, 0.05, 0.11, 0.17, 0.2, 0.29, 0.45])
+            elif mode == "zero_best":
+                d = 0.0 if j == 0 else rng.choice([0.0, 0.004, 0.02, 0.1, 0.25, 0.7])
+            else:
+                d = rng.uniform(0, 1.2)
+            out.append(max(0.0, base + d))
+        rng.shuffle(out)
+        return out
+
+    def has_allele(gene, conf):
+        return any(a.cn_config == conf for a in gene.alleles.values())
+
+    def cn_stub(gene, profile, cn_configs, max_cn, region_coverage, solver, debug=None, fusion_support=None):
+        rng = random.Random(f"{seed}:cn:{counter['cn']}")
+        counter["cn"] += 1
+        dele = gene.deletion_allele()
+        confs = sorted(c for c in gene.cn_configs if c != dele and has_allele(gene, c))
+        cands = [["1", "1"], ["1", "1", "1"], ["1"], ["1", "1", "1", "1"]]
+        cands += [["1", c] for c in confs if c != "1"] + [["1", "1", c] for c in confs if c != "1"]
+        cands += [[c, c] for c in confs if c != "1"]
+        if dele is not None:
+            cands.append([])
+        picked = rng.sample(cands, min(script["n_cn"], len(cands)))
+        return [CNSolution(gene, sc, list(names)) for names, sc in zip(picked, scores(rng, len(picked)))]
+
+    def major_stub(gene, coverage, cn_solution, allele_dict, solver, identifier=0, debug=None):
+        rng = random.Random(f"{seed}:major:{counter['major']}")
+        counter["major"] += 1
+        n = 0 if script["empty_major"] else rng.choice([0, 1, 1, 2, 2, 3])
+        seen, out = set(), []
+        for _ in range(4 * n):
+            if len(out) >= n:
+                break
+            names = []
+            for conf, cnt in sorted(cn_solution.solution.items()):
+                pool = sorted(a for a, al in gene.alleles.items() if al.cn_config == conf)
+                names += [rng.choice(pool) for _ in range(cnt)]
+            key = tuple(sorted(names))
+            if key in seen:
+                continue
+            seen.add(key)
+            out.append(key)
+        return [MajorSolution(score=sc, solution=Counter(SolvedAllele(gene, major=a) for a in key),
+                              cn_solution=cn_solution, added=[])
+                for key, sc in zip(out, scores(rng, len(out)))]
+
+    def minor_stub(gene, coverage, major_sol, alleles_list, mutations, solver, max_solutions=1):
+        rng = random.Random(f"{seed}:minor:{counter['minor']}")
+        counter["minor"] += 1
+        n = 0 if script["empty_minor"] else min(max_solutions, rng.choice([0, 1, 1, 1, 2, 2, 3]))
+        seen, out = set(), []
+        for _ in range(4 * n):
+            if len(out) >= n:
+                break
+            sol = []
+            for sa, cnt in major_sol.solution.items():
+                minors = sorted(gene.alleles[sa.major].minors)
+                sol += [(sa.major, rng.choice(minors)) for _ in range(cnt)]
+            key = tuple(sorted(sol))
+            if key in seen:
+                continue
+            seen.add(key)
+            out.append(sol)
+        res = []
+        for sol, sc in zip(out, scores(rng, len(out))):
+            ms = MinorSolution(score=sc, solution=[SolvedAllele(gene, ma, mi, [], []) for ma, mi in sol],
+                               major_solution=major_sol, profile=coverage.profile)
+            estimate_diplotype(gene, ms)
+            res.append(ms)
+        return res
+
+    def recorded(name, fn):
+        def rec(*a, **k):
+            entry = {"stage": name, "args": (a, k), "ret": None, "exc": None, "solve_from": SIM.solve_index}
+            SIM.stage_calls.append(entry)
+            r = fn(*a, **k)
+            entry["ret"] = r
+            entry["ret_scores"] = [float(x.score) for x in r]
+            entry["solve_to"] = SIM.solve_index
+            return r
+        return rec
+
+    aldy.cn.solve_cn_model = cn_stub
+    aldy.major.solve_major_model = major_stub
+    aldy.minor.solve_minor_model = recorded("solve_minor_model", minor_stub)
+    SIM.fire("scripted_stages:" + mode)
+
+
 def run_segment(seg):
     if seg["kind"] == "materialise":
         return O.materialise(seg["world"], seg["dir"], seg["samples"], build=seg["build"], profile_yaml=False)
@@ -565,6 +710,8 @@ def run_segment(seg):
     if seg["out"] != "none":
         outp = os.path.join(seg["rundir"], f"o-{seg['tag']}.{seg['out']}")
     db = os.path.join(wd, man["db"][seg["gene"]])
+    if seg.get("script"):
+        _install_script(seg["script"], seg["params"].get("gap", 0))
     rec = O.run_genotype(db, os.path.join(wd, man["samples"]["s0"]), os.path.join(wd, man["ref_bam"]), outp,
                          cn_region=man["neutral"], params=seg["params"])
     raw = rec.pop("_raw", None)
@@ -590,5 +737,6 @@ def run_segment(seg):
         rec["exc"]["msg"] = rec["exc"]["msg"].replace(seg["rundir"], "<run>").replace(wd, "<world>")
     return {"result": rec["result"], "exc": rec["exc"], "output": rec["output"], "violations": viol[:10],
             "probes": probes, "stages": stages, "solves": SIM.solve_index, "fired": fired,
+            "script": (seg.get("script") or {}).get("mode"),
             "adv": {k: v for k, v in SIM.fired.items() if k.startswith("adversary")},
             "monitor_failures": list(SIM.monitor_failures)}
